@@ -62,3 +62,394 @@ Proof.
   - intros s. destruct (Hs s) as [_ ->]. rewrite Hl, nclosed_neutral by auto. apply (wc_nclosed _ H).
   - intros s Hni. destruct (Hs s) as [-> ->]. apply (wc_fresh _ H). auto.
 Qed.
+
+Definition quiet (o : obs) : bool := match o with OW _ _ | OClosed _ => false | _ => true end.
+Lemma wfl_quiet : forall added l, forallb quiet added = true -> wfl l -> wfl (added ++ l).
+Proof.
+  induction added; simpl; intros; auto. apply andb_true_iff in H. destruct H.
+  split; auto. destruct a; simpl in *; auto; discriminate.
+Qed.
+Lemma nclosed_quiet : forall added l s, forallb quiet added = true -> nclosed s (added ++ l) = nclosed s l.
+Proof.
+  unfold nclosed; intros. rewrite filter_app, app_length.
+  assert (filter (is_oclosed s) added = []).
+  { induction added; simpl in *; auto. apply andb_true_iff in H. destruct H. destruct a; simpl in *; auto; discriminate. }
+  rewrite H0. auto.
+Qed.
+
+Lemma WC_removal : forall st0 st1 r,
+  WC st0 -> RM st0 st1 r -> (forall s, In s (byid st0) -> In s (allsubs st0)) -> WC st1.
+Proof.
+  intros st0 st1 r H R Hb. constructor.
+  - intros s. rewrite (rm_subs _ _ _ R), (rm_log _ _ _ R), in_app_iff, in_map_iff.
+    destruct (mem s (rr_close r)) eqn:E.
+    + simpl. split; auto. intros _. left. exists s. split; auto. apply in_rev. rewrite rev_involutive. apply mem_In; auto.
+    + rewrite (wc_rem _ H). split; auto. intros [[x [Hx Hi]]|]; auto. inversion Hx; subst.
+      apply in_rev in Hi. apply mem_In in Hi. congruence.
+  - rewrite (rm_log _ _ _ R). apply wfl_quiet; [|apply (wc_wfl _ H)].
+    apply forallb_forall. intros o Hi. apply in_map_iff in Hi. destruct Hi as [x [<- _]]. auto.
+  - intros s. rewrite (rm_subs _ _ _ R), (rm_log _ _ _ R), nclosed_quiet.
+    + rewrite (wc_nclosed _ H). destruct (mem s (rr_close r)); auto.
+    + apply forallb_forall. intros o Hi. apply in_map_iff in Hi. destruct Hi as [x [<- _]]. auto.
+  - intros s Hn. destruct (rm_frame _ _ _ R) as (_ & _ & Ha & _). rewrite Ha in Hn.
+    rewrite (rm_subs _ _ _ R). destruct (mem s (rr_close r)) eqn:E.
+    + exfalso. apply Hn, Hb. apply mem_In in E. apply (rm_close_in _ _ _ R s E).
+    + apply (wc_fresh _ H); auto.
+Qed.
+
+(* writer calls of subscriber s, all inside one W_s region that saw removed_s = false *)
+Lemma WC_write : forall st st1 s ws,
+  WC st -> s_removed (subs st s) = false -> log st1 = ws ++ log st ->
+  Forall (fun o => exists c, o = OW s c) ws ->
+  (forall s', s_removed (subs st1 s') = s_removed (subs st s') /\ s_closed (subs st1 s') = s_closed (subs st s')) ->
+  allsubs st1 = allsubs st -> WC st1.
+Proof.
+  intros st st1 s ws H Hr Hl Hw Hs Ha.
+  assert (Hng : ~ In (GRemoved s) (log st)).
+  { intro Hi. apply (wc_rem _ H) in Hi. congruence. }
+  constructor.
+  - intros s'. destruct (Hs s') as [-> _]. rewrite Hl, in_app_iff, (wc_rem _ H). split; auto.
+    intros [Hi|]; auto. rewrite Forall_forall in Hw. apply Hw in Hi. destruct Hi as [c Hc]. discriminate.
+  - rewrite Hl. clear Hl. induction ws; simpl; [apply (wc_wfl _ H)|].
+    inversion Hw; subst. destruct H2 as [c ->]. split; [|auto].
+    rewrite in_app_iff. intros [Hi|Hi]; [|tauto].
+    rewrite Forall_forall in H3. apply H3 in Hi. destruct Hi as [c' Hc]. discriminate.
+  - intros s'. destruct (Hs s') as [_ ->]. rewrite Hl, <- (wc_nclosed _ H). unfold nclosed. rewrite filter_app, app_length.
+    assert (filter (is_oclosed s') ws = []).
+    { assert (Hq : forall o, In o ws -> is_oclosed s' o = false).
+      { intros o Hi. rewrite Forall_forall in Hw. destruct (Hw o Hi) as [c ->]. auto. }
+      clear - Hq. induction ws; simpl; auto. rewrite Hq by (left; auto). apply IHws. intros; apply Hq; right; auto. }
+    rewrite H0. auto.
+  - intros s' Hn. destruct (Hs s') as [-> ->]. rewrite Ha in Hn. apply (wc_fresh _ H); auto.
+Qed.
+
+(* counting IClose over pushed programs *)
+Lemma cntl_map_zero : forall A (p : instr -> bool) (f : A -> instr) l, (forall x, p (f x) = false) -> cntl p (map f l) = 0.
+Proof. unfold cntl; induction l; simpl; intros; auto. rewrite H. auto. Qed.
+Lemma cnt_map_zero : forall A (p : instr -> bool) (f : A -> tname * list instr) l,
+  (forall x, cntl p (snd (f x)) = 0) -> cnt p (map f l) = 0.
+Proof. induction l; simpl; intros; auto. destruct (f a) eqn:E. specialize (H a) as Ha. rewrite E in Ha. simpl in Ha. rewrite Ha, IHl; auto. Qed.
+Lemma cntl_close_map : forall s l, NoDup l -> cntl (is_close s) (map IClose l) = if mem s l then 1 else 0.
+Proof.
+  unfold cntl; induction l; simpl; intros; auto. inversion H; subst. rewrite (Nat.eqb_sym s a).
+  destruct (Nat.eqb_spec a s); simpl.
+  - subst. rewrite IHl by auto. rewrite (proj2 (mem_nIn s l)); auto.
+  - apply IHl; auto.
+Qed.
+Lemma cntl_after_remove : forall s r, NoDup (rr_close r) ->
+  cntl (is_close s) (after_remove r) = if mem s (rr_close r) then 1 else 0.
+Proof.
+  intros. unfold after_remove. rewrite cntl_app, cntl_close_map by auto. rewrite cntl_map_zero by auto. lia.
+Qed.
+
+Definition R (st : state) (s : sid) : nat := if s_removed (subs st s) then 1 else 0.
+
+Ltac cnt_simpl :=
+  unfold unsub_prog, uprog, ubody, celoop, hbtrigs, hbsubs in *;
+  repeat (rewrite ?cntl_app, ?cntl_cons, ?cnt_app; simpl);
+  repeat match goal with
+         | |- context [cntl _ (map _ _)] => rewrite cntl_map_zero by (intros; reflexivity)
+         | |- context [cnt _ (map _ _)] => rewrite cnt_map_zero by (intros; reflexivity)
+         | |- context [match ?l with [] => [] | _ :: _ => _ end] => destruct l; simpl
+         end;
+  repeat (rewrite ?cntl_app, ?cntl_cons, ?cnt_app; simpl);
+  try (unfold cntl; simpl).
+
+Ltac flags_tac :=
+  intros; simpl; unfold upd;
+  repeat (match goal with |- context [Nat.eqb ?a ?b] => destruct (Nat.eqb_spec a b); subst end); simpl; auto.
+
+Lemma removal_wi : forall st stp st0 r stF i,
+  RG stp -> WC stp -> RM stp st0 r ->
+  (forall s, subs stp s = subs st s) ->
+  (exists added, log stF = added ++ log st0 /\ forallb neutral added = true) ->
+  (forall s, subs stF s = subs st0 s) -> allsubs stF = allsubs st0 ->
+  (forall s, is_close s i = false) ->
+  WC stF /\
+  forall s, s_closed (subs stF s) + cntl (is_close s) (after_remove r) + cnt (is_close s) [] + R st s
+            = s_closed (subs st s) + (if is_close s i then 1 else 0) + R stF s.
+Proof.
+  intros st stp st0 r stF i HR HC HM Hp [added [Hl Hn]] Hs Ha Hi.
+  assert (HC0 : WC st0).
+  { eapply WC_removal; eauto. intros s Hb. apply (rg_byid _ HR s Hb). }
+  split.
+  - eapply WC_neutral; [exact HC0|exact Hl|exact Hn| |rewrite Ha; auto].
+    intros s. rewrite Hs. auto.
+  - intros s. unfold R. rewrite Hi, Hs, (rm_subs _ _ _ HM), Hp, cntl_after_remove by apply (rm_close_nd _ _ _ HM).
+    simpl. destruct (mem s (rr_close r)) eqn:E; simpl; try lia.
+    apply mem_In in E. destruct (rm_close_in _ _ _ HM s E) as [_ Hr]. rewrite Hp in Hr. rewrite Hr. lia.
+Qed.
+
+Definition cnt_noclose (p : list instr) : Prop := forall s, cntl (is_close s) p = 0.
+
+Section C12Step.
+  Variable v : variant.
+  Variable flt : sid -> ev -> fres.
+  Variable wresf : sid -> ev -> wres.
+  Variable ev_bad : ev -> bool.
+  Variable hbfail : sid -> bool.
+  Notation exec := (exec v flt wresf ev_bad hbfail).
+  Notation step := (step v flt wresf ev_bad hbfail).
+  Hypothesis Hfa : fix_a v = true.
+
+  Definition texec (st : state) (i : instr) (st1 : state) (push : list instr) (sp : list (tname * list instr)) : Prop :=
+    forall s, s_closed (subs st1 s) + cntl (is_close s) push + cnt (is_close s) sp + R st s
+              = s_closed (subs st s) + (if is_close s i then 1 else 0) + R st1 s.
+
+  Lemma WI_exec : forall st i x st1 push sp,
+    RG st -> WC st -> (forall s0, i = IClose s0 -> s_removed (subs st s0) = true) ->
+    exec st i x = Some (st1, push, sp) -> WC st1 /\ texec st i st1 push sp.
+  Proof.
+    intros st i x st1 push sp HR HC Hcl He. unfold texec, R.
+    exec_cases He;
+      try (split;
+           [ eapply WC_neutral;
+             [exact HC
+             |first [ instantiate (1 := []); reflexivity
+                    | simpl; match goal with |- ?a :: ?b :: log _ = _ => instantiate (1 := [a; b]); reflexivity end
+                    | simpl; match goal with |- ?a :: log _ = _ => instantiate (1 := [a]); reflexivity end
+                    | simpl; reflexivity ]
+             |try reflexivity
+             |flags_tac
+             |simpl; auto]
+           | intros s'; cnt_simpl; flags_tac; try lia]; fail).
+    (* addSubscription: four branches (join / new trigger, sync / async) *)
+    1-4: assert (Hf := wc_fresh _ HC s (proj1 (mem_nIn _ _) Ec)); destruct Hf as [Hf1 Hf2];
+      (split;
+       [ eapply WC_neutral;
+         [exact HC
+         |simpl; match goal with |- ?a :: ?b :: log _ = _ => instantiate (1 := [a; b]); reflexivity end
+         |reflexivity
+         |flags_tac
+         |simpl; auto]
+       | intros s'; cnt_simpl; flags_tac; try lia; rewrite ?Hf1, ?Hf2; simpl; lia ]).
+    - (* UnsubscribeSubscription *)
+      eapply (removal_wi st (st_log st (if mem s (allsubs st) then [GLeft s] else [])));
+        [eapply RG_ext; [|exact HR]; reg_eq_tac
+        |eapply WC_neutral; [exact HC|simpl; reflexivity|destruct (mem s (allsubs st)); reflexivity|flags_tac|simpl; auto]
+        |eapply RM_remove_locked; [|exact Erm]; eapply RG_ext; [|exact HR]; reg_eq_tac
+        |reflexivity
+        |eexists; split; [simpl; reflexivity|unfold dec_obs; destruct (rr_dec r =? 0); reflexivity]
+        |reflexivity|reflexivity|reflexivity].
+    - (* removeClient *)
+      eapply (removal_wi st (st_log st (map GLeft (of_conn st c (allsubs st)))));
+        [eapply RG_ext; [|exact HR]; reg_eq_tac
+        |eapply WC_neutral; [exact HC|simpl; reflexivity| |flags_tac|simpl; auto]
+        |eapply RM_remove_many; [|exact Erm]; eapply RG_ext; [|exact HR]; reg_eq_tac
+        |reflexivity
+        |eexists; split; [simpl; reflexivity|unfold dec_obs; destruct (rr_dec r =? 0); reflexivity]
+        |reflexivity|reflexivity|reflexivity].
+      apply forallb_forall. intros o Ho. apply in_map_iff in Ho. destruct Ho as [y [<- _]]. reflexivity.
+    - (* shutdownResolver *)
+      eapply (removal_wi st (st_flags st true (rctx st)));
+        [eapply RG_ext; [|exact HR]; reg_eq_tac
+        |eapply WC_neutral; [exact HC|instantiate (1 := []); reflexivity|reflexivity|flags_tac|simpl; auto]
+        |eapply RM_detach_many; [eapply RG_ext; [|exact HR]; reg_eq_tac| | |exact Erm]
+        |reflexivity
+        |eexists; split; [simpl; reflexivity|unfold dec_obs; destruct (rr_dec r =? 0); reflexivity]
+        |reflexivity|reflexivity|reflexivity].
+      + simpl. auto.
+      + simpl. apply (NoDup_tids (fun t => t_key (trigs st t))); [apply (rg_keys _ HR)|].
+        intros k t Hi. apply (rg_ent _ HR _ _ Hi).
+    - (* close(completed_s) *)
+      assert (Hrm : s_removed (subs st s) = true) by (apply Hcl; auto).
+      split.
+      + constructor; simpl.
+        * intros s'. unfold upd. destruct (Nat.eqb_spec s' s); subst; simpl.
+          -- rewrite Hrm. split; auto. intros _. right. apply (wc_rem _ HC); auto.
+          -- rewrite (wc_rem _ HC). split; auto. intros [Hx|]; auto. discriminate.
+        * split; [apply (wc_rem _ HC); auto|apply (wc_wfl _ HC)].
+        * intros s'. unfold nclosed. simpl. unfold upd. rewrite (Nat.eqb_sym s' s).
+          destruct (Nat.eqb_spec s s'); subst; simpl; rewrite <- (wc_nclosed _ HC); auto.
+        * intros s' Hn. unfold upd. destruct (Nat.eqb_spec s' s); subst; simpl; [|apply (wc_fresh _ HC); auto].
+          destruct (wc_fresh _ HC s Hn). congruence.
+      + intros s'. simpl. unfold cntl, upd. simpl. rewrite (Nat.eqb_sym s' s).
+        destruct (Nat.eqb_spec s s'); subst; simpl; lia.
+    - (* writeError *)
+      split; [eapply (WC_write st _ s [OW s CWriteError]); eauto; try solve [simpl; reflexivity]; try solve [repeat constructor; eexists; reflexivity]; try solve [flags_tac]
+             |intros s'; cnt_simpl; lia].
+    - (* doneTriggerFromUpdater *)
+      assert (Hr : In (t_key (trigs st t0), t0) (reg st)).
+      { destruct (fix_c v).
+        - destruct (is_reg st t) eqn:E; inversion Ec; subst. apply is_reg_true; auto.
+        - apply lookup_reg_In in Ec. destruct (rg_ent _ HR _ _ Ec) as (_ & B & _). rewrite B. exact Ec. }
+      eapply (removal_wi st st);
+        [exact HR|exact HC|eapply RM_detach_locked; eauto|reflexivity
+        |eexists; split; [simpl; reflexivity|unfold dec_obs; destruct (rr_dec r =? 0); reflexivity]
+        |reflexivity|reflexivity|reflexivity].
+    - (* fan-out *)
+      split.
+      + eapply WC_neutral; [exact HC|simpl; reflexivity| |flags_tac|simpl; auto].
+        apply forallb_forall. intros o Ho. apply in_map_iff in Ho. destruct Ho as [y [<- _]]. reflexivity.
+      + intros s'. cnt_simpl. lia.
+    - split; [eapply (WC_write st _ s [OW s CFlush; OW s (CWrite e)]); eauto; try solve [simpl; reflexivity]; try solve [repeat constructor; eexists; reflexivity]; try solve [flags_tac]
+             |intros s'; cnt_simpl; lia].
+    - split; [eapply (WC_write st _ s [OW s CFlushFail; OW s (CWrite e)]); eauto; try solve [simpl; reflexivity]; try solve [repeat constructor; eexists; reflexivity]; try solve [flags_tac]
+             |intros s'; cnt_simpl; lia].
+    - split; [eapply (WC_write st _ s [OW s CWriteError; OW s (CWriteFail e)]); eauto; try solve [simpl; reflexivity]; try solve [repeat constructor; eexists; reflexivity]; try solve [flags_tac]
+             |intros s'; cnt_simpl; lia].
+    - (* complete() / error(): the re-test under writeMu *)
+      rewrite Hfa in Ec. simpl in Ec.
+      split; [eapply (WC_write st _ s [OW s (cecall c)]); eauto; try solve [simpl; reflexivity]; try solve [repeat constructor; eexists; reflexivity]; try solve [flags_tac]
+             |intros s'; cnt_simpl; lia].
+    - split; [eapply (WC_write st _ s [OW s CHeartbeatFail]); eauto; try solve [simpl; reflexivity]; try solve [repeat constructor; eexists; reflexivity]; try solve [flags_tac]
+             |intros s'; cnt_simpl; lia].
+    - split; [eapply (WC_write st _ s [OW s CHeartbeat]); eauto; try solve [simpl; reflexivity]; try solve [repeat constructor; eexists; reflexivity]; try solve [flags_tac]
+             |intros s'; cnt_simpl; lia].
+  Qed.
+
+  Lemma cnt_lookup_ge : forall p th i rest thr, lookup_thr th thr = Some (i :: rest) -> p i = true -> cnt p thr > 0.
+  Proof.
+    induction thr as [|[n q] thr]; simpl; intros; [discriminate|].
+    destruct (tname_eqb n th).
+    - inversion H; subst. rewrite cntl_cons, H0. lia.
+    - specialize (IHthr H H0). lia.
+  Qed.
+
+  Lemma WI_step : forall st a st', RG st -> WC st -> WT st -> step st a = Some st' -> WC st' /\ WT st'.
+  Proof.
+    intros st a st' HR HC HT Hs.
+    assert (Hspawn : forall n p, cnt_noclose p -> spawn st n p = Some st' -> WC st' /\ WT st').
+    { intros n p Hp Hsp. apply spawn_spec in Hsp. destruct Hsp as [->|[_ ->]]; auto. split.
+      - eapply WC_neutral; [exact HC|instantiate (1 := []); reflexivity|reflexivity|flags_tac|simpl; auto].
+      - intros s. simpl. rewrite cnt_app. simpl. rewrite Hp. specialize (HT s). lia. }
+    destruct a; simpl in Hs.
+    - eapply Hspawn; [|exact Hs]. intros s. destruct op; reflexivity.
+    - destruct (t <? ntrig st); [|discriminate]. eapply Hspawn; [|exact Hs]. intros s. destruct op; reflexivity.
+    - eapply Hspawn; [|exact Hs]. intros s. reflexivity.
+    - apply step_AStep in Hs. destruct Hs as (i & rest & st1 & push & sp & Hl & He & Heq).
+      assert (Hcl : forall s0, i = IClose s0 -> s_removed (subs st s0) = true).
+      { intros s0 ->. specialize (HT s0).
+        assert (cnt (is_close s0) (threads st) > 0) by (eapply cnt_lookup_ge; [exact Hl|simpl; apply Nat.eqb_refl]).
+        destruct (s_removed (subs st s0)); auto. lia. }
+      destruct (WI_exec _ _ _ _ _ _ HR HC Hcl He) as [HC1 HT1]. split.
+      + subst st'. eapply WC_neutral; [exact HC1|instantiate (1 := []); reflexivity|reflexivity|flags_tac|simpl; auto].
+      + intros s. pose proof (step_cnt v flt wresf ev_bad hbfail (is_close s) _ _ _ _ _ _ _ _ _ Hl He Heq) as Hc.
+        specialize (HT1 s). specialize (HT s). unfold R in HT1.
+        assert (subs st' s = subs st1 s) by (subst st'; reflexivity). rewrite H. lia.
+  Qed.
+End C12Step.
+
+(* ---- from the invariants to the statements of Spec.v ---- *)
+Lemma wfl_app_r : forall a b, wfl (a ++ b) -> wfl b.
+Proof. induction a; simpl; intros; auto. apply IHa. tauto. Qed.
+
+Lemma wfl_nwac : forall l, wfl l -> no_write_after_completed (rev l).
+Proof.
+  unfold no_write_after_completed. intros l Hw l1 l2 s c Heq Hin.
+  assert (El : l = rev l2 ++ OClosed s :: rev l1).
+  { rewrite <- (rev_involutive l), Heq, rev_app_distr. simpl. rewrite <- app_assoc. reflexivity. }
+  apply in_rev in Hin. apply in_split in Hin. destruct Hin as (a & b & Hab).
+  rewrite Hab, <- app_assoc in El. simpl in El. subst l.
+  apply wfl_app_r in Hw. simpl in Hw. destruct Hw as [Hn Hw].
+  apply wfl_app_r in Hw. simpl in Hw. destruct Hw as [Hy _].
+  apply Hn. apply in_or_app. right. right. exact Hy.
+Qed.
+
+Lemma nclosed_count : forall s l, nclosed s l = count_occ Nat.eq_dec (closes l) s.
+Proof.
+  unfold nclosed. induction l; simpl; auto.
+  destruct a; simpl; auto. destruct (Nat.eq_dec s0 s); destruct (Nat.eqb_spec s0 s); try congruence; simpl; auto.
+Qed.
+Lemma closes_rev : forall l, closes (rev l) = rev (closes l).
+Proof.
+  unfold closes. induction l; simpl; auto. rewrite flat_map_app, IHl. simpl. rewrite app_nil_r.
+  destruct a; simpl; auto using app_nil_r.
+Qed.
+
+Section C12Main.
+  Variable flt : sid -> ev -> fres.
+  Variable wresf : sid -> ev -> wres.
+  Variable ev_bad : ev -> bool.
+  Variable hbfail : sid -> bool.
+  Notation reach := (reachable fixed flt wresf ev_bad hbfail).
+  Notation stepf := (step fixed flt wresf ev_bad hbfail).
+  Notation execf := (exec fixed flt wresf ev_bad hbfail).
+
+  Lemma WC_init : WC init /\ WT init.
+  Proof.
+    split; [constructor; simpl; intros; auto; try tauto|intros s; reflexivity].
+    split; [discriminate|tauto].
+  Qed.
+
+  Lemma WI_reachable : forall st, reach st -> RG st /\ WC st /\ WT st.
+  Proof.
+    apply run_inv.
+    - split; [apply RG_init; assumption|apply WC_init; assumption].
+    - intros st a st' (HR & HC & HT) Hs. split; [eapply RG_step; eauto|].
+      eapply WI_step; eauto. reflexivity.
+  Qed.
+
+  Lemma no_write_after_completed_holds : forall st, reach st -> no_write_after_completed (chron st).
+  Proof. intros st H. apply WI_reachable in H. destruct H as (_ & HC & _). apply wfl_nwac, (wc_wfl _ HC). Qed.
+
+  Lemma completed_once_holds : forall st, reach st -> completed_once (chron st).
+  Proof.
+    intros st H. apply WI_reachable in H. destruct H as (_ & HC & HT).
+    unfold completed_once, chron. rewrite closes_rev. apply NoDup_rev.
+    apply (NoDup_count_occ Nat.eq_dec). intros s. rewrite <- nclosed_count, (wc_nclosed _ HC).
+    specialize (HT s). destruct (s_removed (subs st s)); lia.
+  Qed.
+
+  (* the stronger fact behind both: no writer call after the removal (CAS) of the subscriber, and the
+     completed channel is closed only after the removal *)
+  Lemma closed_flag_counts : forall st s, reach st -> s_closed (subs st s) = nclosed s (log st) /\ s_closed (subs st s) <= 1.
+  Proof.
+    intros st s H. apply WI_reachable in H. destruct H as (_ & HC & HT). split; [symmetry; apply (wc_nclosed _ HC)|].
+    specialize (HT s). destruct (s_removed (subs st s)); lia.
+  Qed.
+
+  (* writes_exclusive: every writer call is made by an instruction that is a writeMu region of that
+     subscriber; regions are single transitions of the LTS, hence never overlap. *)
+  Definition w_region (i : instr) : option sid :=
+    match i with
+    | IWriteErr s | IKidWrite _ s _ | ICEWrite s _ | IHbSend s => Some s
+    | _ => None
+    end.
+
+  Definition is_ow (s : sid) (o : obs) : bool := match o with OW s' _ => s' =? s | _ => false end.
+  Definition nw (s : sid) (l : list obs) : nat := length (filter (is_ow s) l).
+
+  Lemma nw_app : forall s a b, nw s (a ++ b) = nw s a + nw s b.
+  Proof. unfold nw; intros; rewrite filter_app, app_length; auto. Qed.
+  Lemma nw_quiet : forall s a, forallb quiet a = true -> nw s a = 0.
+  Proof.
+    unfold nw; induction a; simpl; intros; auto. apply andb_true_iff in H. destruct H.
+    destruct a; simpl in *; auto; discriminate.
+  Qed.
+  Lemma quiet_map : forall A (f : A -> obs) l, (forall x, quiet (f x) = true) -> forallb quiet (map f l) = true.
+  Proof. induction l; simpl; intros; auto. rewrite H, IHl; auto. Qed.
+
+  Lemma nw_RM : forall s st0 st1 r, RM st0 st1 r -> nw s (log st1) = nw s (log st0).
+  Proof. intros. rewrite (rm_log _ _ _ H), nw_app, nw_quiet; auto. apply quiet_map; auto. Qed.
+
+  Lemma writes_exclusive_holds : forall st i x st1 push sp s,
+    RG st -> execf st i x = Some (st1, push, sp) ->
+    nw s (log st1) <> nw s (log st) -> w_region i = Some s.
+  Proof.
+    intros st i x st1 push sp s HR He Hne.
+    exec_cases He; simpl in *; try (exfalso; apply Hne; reflexivity);
+      try (unfold nw in Hne; simpl in Hne; destruct (Nat.eqb_spec s0 s); [subst; reflexivity|exfalso; apply Hne; reflexivity]).
+    - exfalso. apply Hne. unfold dec_obs.
+      assert (HR0 : RG (st_log st (if mem s0 (allsubs st) then [GLeft s0] else []))) by (eapply RG_ext; [|exact HR]; reg_eq_tac).
+      assert (E := RM_remove_locked _ _ _ _ HR0 Erm).
+      apply (nw_RM s) in E. simpl in E. destruct (rr_dec r =? 0); simpl; unfold nw in *; simpl; rewrite E;
+        destruct (mem s0 (allsubs st)); reflexivity.
+    - exfalso. apply Hne. unfold dec_obs.
+      assert (HR0 : RG (st_log st (map GLeft (of_conn st c (allsubs st))))) by (eapply RG_ext; [|exact HR]; reg_eq_tac).
+      assert (E := RM_remove_many _ _ _ _ HR0 Erm).
+      apply (nw_RM s) in E. simpl in E. rewrite ?nw_app in E. rewrite (nw_quiet s (map GLeft (of_conn st c (allsubs st)))) in E by (apply quiet_map; auto).
+      destruct (rr_dec r =? 0); simpl; unfold nw in *; simpl; rewrite E; reflexivity.
+    - exfalso. apply Hne. unfold dec_obs.
+      assert (E : RM (st_flags st true (rctx st)) st0 r).
+      { eapply RM_detach_many; [eapply RG_ext; [|exact HR]; reg_eq_tac| | |exact Erm]; simpl; auto.
+        apply (NoDup_tids (fun t => t_key (trigs st t))); [apply (rg_keys _ HR)|]. intros k t Hi. apply (rg_ent _ HR _ _ Hi). }
+      apply (nw_RM s) in E. simpl in E. destruct (rr_dec r =? 0); simpl; unfold nw in *; simpl; rewrite E; reflexivity.
+    - exfalso. apply Hne. unfold dec_obs.
+      assert (Hr : In (t_key (trigs st t0), t0) (reg st)).
+      { simpl in Ec. destruct (is_reg st t) eqn:E; inversion Ec; subst. apply is_reg_true; auto. }
+      assert (E := RM_detach_locked _ _ _ _ HR Hr Erm).
+      apply (nw_RM s) in E. destruct (rr_dec r =? 0); simpl; unfold nw in *; simpl; rewrite E; reflexivity.
+    - exfalso. apply Hne. rewrite nw_app, nw_quiet; auto. apply quiet_map; auto.
+  Qed.
+End C12Main.
